@@ -1,5 +1,4 @@
 /-
-<<<<<<< HEAD
   C06 - property theorems, part 11: `ValuesOfCorrectTypeChecker` (5.6.1). The rule reads the INPUT side of
   `TypeInfoVisitor` and raises `SkipNode` at an object literal that does not stand at an input-object position -
   without any error when the position's type is unknown. Proved through the context walk `Q.defsC`
@@ -113,106 +112,5 @@ example : Spec.valuesOfCorrectType vSchema Fixes.all v8doc ∧ ¬ Spec.valuesCoe
    fun h => absurd ((valuesCoercibleB_iff vSchema v8doc).mpr h) (by decide +kernel)⟩
 example : Silent vSchema Fixes.all .valuesOfCorrectType v8doc2 ∧ ¬ Spec.valuesCoercible vSchema v8doc2 :=
   ⟨by unfold Silent; decide +kernel, fun h => absurd ((valuesCoercibleB_iff vSchema v8doc2).mpr h) (by decide +kernel)⟩
-=======
-  C06 - property theorems, part 12: `ValuesOfCorrectTypeChecker` (5.6.1, 5.6.2, 5.6.4 as the code implements them;
-  ledger V8 is the gap to the specification's 5.6.1 for list literals). Through the generic context walk with the
-  stacks of `TypeInfoVisitor` as context, projected to the input-side static contexts `IView`.
-  The rule raises SkipNode at an object literal that does not stand at an input object type - WITHOUT an error when
-  the expected type is unknown ("quiet skip"): nothing below can report then (`dead*` lemmas).
--/
-import PyGqlModel.Props.C06_spreads
-namespace PyGql.Props.C06
-open PyGql PyGql.Validate PyGql.Validate.Spec
-
-/-- the input-side static context shown by the stacks of `TypeInfoVisitor` -/
-def iview (t : TI) : IView := { view := t.view, inputs := t.inputStack }
-
-theorem IView.ext2 {a b : IView} (h1 : a.view = b.view) (h2 : a.inputs = b.inputs) : a = b := by
-  cases a; cases b; simp_all
-
-theorem IView.enter_view (s : SchemaD) (n : Node) (v : IView) : (IView.enter s n v).view = View.enter s n v.view := by
-  cases n with
-  | value x => cases x <;> simp [IView.enter, IView.push]
-  | argument a => simp only [IView.enter, IView.push]; split <;> rfl
-  | objField name =>
-    simp only [IView.enter, IView.push]
-    split
-    · split <;> rfl
-    · rfl
-  | _ => simp [IView.enter, IView.push]
-
-theorem inputs_enter (s : SchemaD) (n : Node) (t : TI) : (tiEnter s n t).inputStack = (IView.enter s n (iview t)).inputs := by
-  cases n with
-  | value x => cases x <;> simp [iview, IView.enter, IView.push, tiEnter, TI.enterListValue, IView.inputType, TI.inputType]
-  | argument a =>
-    simp only [iview, IView.enter, IView.push, tiEnter, TI.enterArgument, TI.view]
-    cases t.directive <;> cases hf : t.field <;> simp [hf]
-  | objField name =>
-    simp only [iview, IView.enter, IView.push, IView.inputType, tiEnter, TI.enterObjectField, TI.inputType]
-    cases hi : (TI.peek t.inputStack).map (·.base) with
-    | none => simp
-    | some b => cases hb : isInputObject s b <;> simp [hb]
-  | varDef vd => simp [iview, IView.enter, IView.push, tiEnter, TI.enterVarDef]
-  | inline on dirs => cases on <;> simp [iview, IView.enter, tiEnter, TI.enterInline]
-  | _ =>
-    simp [iview, IView.enter, tiEnter, TI.enterSelectionSet, TI.enterField, TI.enterDirective, TI.enterOperation,
-      TI.enterFragmentDef]
-
-theorem iview_enter (s : SchemaD) (n : Node) (t : TI) : iview (tiEnter s n t) = IView.enter s n (iview t) :=
-  IView.ext2 (by rw [IView.enter_view]; exact view_enter s n t) (inputs_enter s n t)
-
-theorem parseLiteralFails_some (sc : String) (v : Value) : ∃ b, parseLiteralFails sc v = some b := by
-  unfold parseLiteralFails
-  split
-  · exact ⟨_, rfl⟩
-  · cases v <;> exact ⟨_, rfl⟩
-
-/-- errors of `_check_scalar(node)` at an expected type -/
-def scalarErr (s : SchemaD) (iv : IView) (v : Value) : Nat :=
-  match iv.inputType with
-  | none => 0
-  | some it => if !isScalar s it.base then 1 else if parseLiteralFails it.base v = some true then 1 else 0
-
-theorem checkScalar_eq (s : SchemaD) (ti : TI) (v : Value) : checkScalar s ti v = some (scalarErr s (iview ti) v) := by
-  unfold checkScalar scalarErr
-  show (match ti.inputType with | none => _ | some it => _) = some (match TI.peek ti.inputStack with | none => _ | some it => _)
-  cases h : ti.inputType with
-  | none => simp [TI.inputType] at h; simp [h]
-  | some it =>
-    have h' : TI.peek ti.inputStack = some it := h
-    simp only [h']
-    cases hs : isScalar s it.base
-    · simp
-    · obtain ⟨b, hb⟩ := parseLiteralFails_some it.base v
-      cases b <;> simp [hb]
-
-
-/-!
-## HANDOVER (val1 -> val2): what is here, what remains
-
-Done in this file / elsewhere:
-* `Spec/CtxNodes.lean`: `IView` (view + chain of expected input types), `IView.enter`, `Spec.inputNodes`,
-  `Spec.literalOk`, `Spec.valuesOfCorrectType s fx d` (the clause the code implements, V8 stays a refutation).
-* `Lemmas/ValidateCtx.lean`: `CTX` now has QUIET SKIPS (`qskip`, `qskipE`, `qskip_fine`, `qskip_ctx`, `qskip_only`,
-  `qskip_sub`): SkipNode without an error at an object literal, allowed when nothing below can report.
-* here: `iview`, `iview_enter` (projection commutes with `tiEnter`), `parseLiteralFails_some`, `scalarErr`, `checkScalar_eq`.
-
-Plan for the rest (all on contexts `iview t`):
-1. `fVal s fx : Node → IView → Nat` = errors added on entering (scalars: `scalarErr`; null at non-null: 1; enum; object
-   literal: missing required fields at an input object type, else `scalarErr`; object field: 1 iff
-   `inputType = none ∧ parentInputType = some _`), `isObjSkip s : Node → IView → Bool` (object literal not at an input
-   object type), and the uniform equation
-   `enterRule s fx .valuesOfCorrectType n ti rs = (rs.errN _ (fVal s fx n (iview ti)), isObjSkip s n (iview ti))` for `n.isDoc = false`
-   (uses `checkScalar_eq`; `RS.addOpt r (some k) = errN r k`).
-2. CTX instance with `X := TI` (as `ctxSpreads`): `bad n t := isObjSkip .. && fVal .. > 0`, `qskip n t := isObjSkip .. && fVal .. == 0`,
-   `F n t := fVal s fx n (iview t)`, `G := 0`. A quiet skip implies `inputType = none` (object literal at a known non
-   input-object type always errs: `parseLiteralFails sc (.obj fs) = some true`).
-3. `qskip_sub`: "dead zone" - mutual induction over `Value`: if `TI.peek t.inputStack = none` then every pair of
-   `gnValue (tiEnter s) t v` / `gnObjFields (tiEnter s) t fs` is fine (below an unknown type all expected types are unknown,
-   and `parentInputType` is `none` because the position one level up is unknown too).
-4. `rule_values_of_correct_type_iff`: `silent_iff_ctx`, then `forall_gnDoc_map iview (tiEnter s) (IView.enter s) (iview_enter s)`,
-   then pointwise `okP ↔ Spec.literalOk` by cases on the node kind.
--/
->>>>>>> 88e7473a30999ae2e6becbc06ed6783959597d96
 
 end PyGql.Props.C06
